@@ -62,6 +62,8 @@ def _row_law(B, label, value, em, sigma_terms, ybar_key, tag='Y'):
 
 
 def case_predictive(B, cfg):
+    if not B.symbolic:
+        return   # term inspection: nothing to replay on floats
     ems = cfg['ems']
     n_out = len(ems)
     mm = _mech(B, 2, n_out)
@@ -126,6 +128,8 @@ def case_predictive(B, cfg):
 
 
 def case_population(B, cfg):
+    if not B.symbolic:
+        return   # term inspection: nothing to replay on floats
     units = cfg['units']
     D = hier.total_dim(units)
     n_mech = D - 1
@@ -280,6 +284,8 @@ def _posterior_dataset(B, names, ids, n_chains, n_draws, pop_level=()):
 
 
 def case_posterior(B, cfg):
+    if not B.symbolic:
+        return   # term inspection: nothing to replay on floats
     mm = _mech(B, 2, 1)
     pm = chi.PredictiveModel(mm, chi.GaussianErrorModel())
     names = pm.get_parameter_names()
@@ -344,6 +350,8 @@ def case_posterior(B, cfg):
 
 
 def case_prior(B, cfg):
+    if not B.symbolic:
+        return   # term inspection: nothing to replay on floats
     mm = _mech(B, 2, 1)
     pm = chi.PredictiveModel(mm, chi.GaussianErrorModel())
     prior = SymPrior(B, 3)
@@ -388,6 +396,8 @@ def case_prior(B, cfg):
 
 
 def case_pam(B, cfg):
+    if not B.symbolic:
+        return   # term inspection: nothing to replay on floats
     ns = cfg['n_samples']
     models = []
     for k in range(2):
@@ -427,7 +437,8 @@ def case_pam(B, cfg):
 def jobs(tier):
     out = []
     q = tier == 'quick'
-    F = {'max_paths': 300, 'diffcheck': False, 'replay_candidates': 1}
+    F = {'max_paths': 300, 'diffcheck': False, 'replay_candidates': 1,
+         'facts_final': True}
     emsets = [['Gaussian'], ['LogNormal'], ['Multiplicative', 'Gaussian'],
               ['ConstantAndMultiplicative', 'LogNormal']]
     for ems in emsets:
